@@ -1,7 +1,8 @@
 import GlmVerif.Spec.C02
-import GlmVerif.Gen.C02
-/-! table check of family `asg_m` against the model generated from /repo (kernel evaluation) -/
+import GlmVerif.Gen.C02.asg_m
+/-! table check of family `asg_m` against the model of its units generated from /repo (kernel evaluation) -/
 namespace Glm.Props.C02
 open Glm Glm.Spec.C02 Glm.Gen.C02
-theorem asg_m_ok : f_asg_m.ok lookup = true := by decide +kernel
+set_option maxHeartbeats 4000000 in
+theorem asg_m_ok : f_asg_m.ok (fun _ ks => asg_m_L ks) = true := by decide +kernel
 end Glm.Props.C02
